@@ -37,6 +37,7 @@ structure Ctl where
   created   : Bool := false     -- the initial population exists
   frozen    : Bool := false
   log       : List String := []  -- events emitted / framework actions, oldest first
+  failOn    : String := ""       -- fault injection: a listener of this event raises at its next emission ("" = none)
 deriving Repr, DecidableEq
 
 inductive Fail | transition | unknown | constraint | other deriving Repr, DecidableEq
@@ -73,6 +74,7 @@ def actCtl (s : Ctl) : Act → Except (Fail × Ctl) Ctl
   | .emit e =>
     if !s.setupDone then .error (.other, s)
     else if s.st ≠ e then .error (.constraint, s)      -- `channel.emit` is allowed only in its own state
+    else if s.failOn ≠ "" ∧ s.failOn = e then .error (.other, { s with failOn := "" })   -- a listener raised: the state stays entered
     else .ok { s with log := s.log ++ ["emit:" ++ e] }
   | .getPop =>
     if !admitted "self.get_population" s.st then .error (.constraint, s)
